@@ -31,6 +31,15 @@ func hashOf(s string) string {
 	return hex.EncodeToString(h[:8])
 }
 
+// model ids: a written model carries an id, and different models may carry the same one (nothing in
+// this library may key state on it); most generated models have none, as the DSL parser's have
+var c13Ids = []string{"", "", "01HVMMBCMGZNT3SED4Z17ECXCA", "01HVMMBD5A8ZQXZK9CP3Q7V1XE"}
+
+func withID(rng *rand.Rand, m *openfgav1.AuthorizationModel) *openfgav1.AuthorizationModel {
+	m.Id = c13Ids[rng.Intn(len(c13Ids))]
+	return m
+}
+
 // c13Ops derives the operation list from the seed alone (so that a worker process can rebuild it).
 func c13Ops(seed int64, n int) []c13Op {
 	rng := rand.New(rand.NewSource(seed))
@@ -43,15 +52,15 @@ func c13Ops(seed int64, n int) []c13Op {
 		case 1:
 			// half of the printed models are arbitrary protobuf models (direct assignment in any position and
 			// multiplicity, missing metadata), not only images of the DSL parser
-			ops = append(ops, c13Op{Kind: "print", Model: GenModel(rng, GenOpts{Conds: true, Modular: rng.Intn(2) == 0, MaxDepth: 3, DSLValid: rng.Intn(2) == 0}).Proto()})
+			ops = append(ops, c13Op{Kind: "print", Model: withID(rng, GenModel(rng, GenOpts{Conds: true, Modular: rng.Intn(2) == 0, MaxDepth: 3, DSLValid: rng.Intn(2) == 0}).Proto())})
 		case 2:
 			ms := GenModSet(rng, rng.Intn(2))
 			ms.Render(rng)
 			ops = append(ops, c13Op{Kind: "merge", Names: ms.Names, Texts: ms.Texts})
 		case 3:
-			ops = append(ops, c13Op{Kind: "pgraph", Model: GenGraphModel(rng).Proto()})
+			ops = append(ops, c13Op{Kind: "pgraph", Model: withID(rng, GenGraphModel(rng).Proto())})
 		case 4:
-			ops = append(ops, c13Op{Kind: "wgraph", Model: GenWModel(rng).Proto()})
+			ops = append(ops, c13Op{Kind: "wgraph", Model: withID(rng, GenWModel(rng).Proto())})
 		case 5:
 			ops = append(ops, c13Op{Kind: "validate", Text: []string{"doc:1", "group:eng#member", "user:*", "a b", "doc:1:2"}[rng.Intn(5)]})
 		}
@@ -141,7 +150,25 @@ func c13Worker(mode string, seed int64, n int) {
 			t, _ := Render(GenModel(rng, GenOpts{DSLValid: true, Conds: true, MaxDepth: 4}), rand.New(rand.NewSource(rng.Int63())))
 			_, _ = transformer.TransformDSLToProto(t)
 			_, _ = transformer.TransformDSLToProto(mutate(rng, t))
+			if i%3 == 0 {
+				// unrelated models that happen to carry the ids the operations use
+				gm := withID(rng, GenGraphModel(rng).Proto())
+				_, _ = graph.NewAuthorizationModelGraph(gm)
+				_, _ = graph.NewWeightedAuthorizationModelGraphBuilder().Build(gm)
+				_, _ = transformer.TransformJSONProtoToDSL(gm)
+			}
 		}
+	case "reverse":
+		// the same operations, last to first: the result of a call may not depend on what ran before it
+		res := make([]string, len(ops))
+		for i := len(ops) - 1; i >= 0; i-- {
+			r, _ := c13Exec(ops[i])
+			res[i] = hashOf(r)
+		}
+		for i := range ops {
+			fmt.Fprintf(w, "%d %s\n", i, res[i])
+		}
+		return
 	case "race":
 		results := make([][]string, 8)
 		var wg sync.WaitGroup
@@ -193,7 +220,7 @@ func init() {
 	props["C13"] = func(c *Ctx) {
 		c.R.Rule = "one operation list (DSL parse + JSON, print with/without source info on modular models, module merge, plain graph + DOT + reversal, weighted graph, validators) derived from the seed is executed " +
 			"(1) sequentially in this process with the arguments compared before/after each call (proto.Equal and order-sensitive canonical form: inputs untouched), (2) in a fresh child process (cold ANTLR caches), " +
-			"(3) in a child process warmed by 600 unrelated and mutated inputs, (4) from 8 goroutines in a child built with -race that share ONE weighted-graph builder instance, each goroutine also printing and building graphs from one shared read-only model; " +
+			"(3) in a child process warmed by 600 unrelated and mutated inputs and 100 unrelated models that carry the same model ids as the operations' models, (3b) in a child process last to first, (4) from 8 goroutines in a child built with -race that share ONE weighted-graph builder instance, each goroutine also printing and building graphs from one shared read-only model; " +
 			"oracles: every regime gives the same result for every operation, no frame violation, no race report; correspondence of the sequential results with the Lean ports. " +
 			"non-trivial = distinct operation whose result was compared in all regimes"
 		n := c.Pick(300, 3000)
@@ -240,7 +267,7 @@ func init() {
 			}
 			return res, errb.String(), err
 		}
-		regimes := []struct{ name, bin, mode string }{{"cold", self, "cold"}, {"warm", self, "warm"}}
+		regimes := []struct{ name, bin, mode string }{{"cold", self, "cold"}, {"warm", self, "warm"}, {"reverse", self, "reverse"}}
 		raceBin := os.Getenv("VERIF_RACE_BIN")
 		if raceBin != "" {
 			if _, err := os.Stat(raceBin); err == nil {
